@@ -128,7 +128,7 @@ CFG = {'module': 'Dnp3.Props.C09',
                'iterators, Display and builders',
  'level_note': 'trusted: Lean kernel (+ propext/Classical.choice/Quot.sound), translate.py + '
                'gen_variations.py, the correspondence harness; the Rust is modelled, not verified',
- 'engine_monitors': {'db': ['response_well_formed'], 'outstationdb': ['fits_and_parses'],
+ 'engine_monitors': {'db': ['response_well_formed', 'event_is_recorded_live_in_order'], 'outstationdb': ['fits_and_parses'],
                      'attr': ['attr_response_parses_back', 'attr_fragment_is_whole_objects',
                               'attr_parser_accepts_only_exact', 'attr_request_parses_back',
                               'response_within_capacity', 'no_panic'],
